@@ -1,10 +1,10 @@
-\* C42 leg A quick: ONE interval (grid 0..4, interval 5), steps {1,2,4} all "common" (alternative keys),
+\* C42 leg A quick: ONE interval (grid 0..5, interval 6), steps {1,2} both "common" (alternative keys),
 \* min extent off, worlds 2,4; every reachable cache content = histories of any length
 SPECIFICATION Spec
-CONSTANTS T = 4
-          StepSet = {1, 2, 4}
-          Common = {1, 2, 4}
-          Ivs = {5}
+CONSTANTS T = 5
+          StepSet = {1, 2}
+          Common = {1, 2}
+          Ivs = {6}
           MinExt = 100
           WorldIds = {2, 4}
           GridFix = TRUE
